@@ -302,3 +302,37 @@ package filesystem
 //@   props C18
 //@   safety
 //@   ensures never-overwrites-silently: decision == api.ImportAbort && err == ErrKeyRingExists
+
+// ---- Transactions re-applied on the freshly pulled ring detect concurrent modification (C17) and undo exactly (C08) ----
+// A key is appended only if no key of the pulled ring already has its sequence number, whichever position it is at.
+//@ func (tx *txAddKey) Apply(ring *KeyRing) (err error)
+//@   props C17 C08 C06
+//@   safety
+//@   ensures no-duplicate-seqnum: err == nil ==> forall(i, 0, old(len(ring.data.Keys)), old(ring.data.Keys[i].Seqnum) != tx.newKey.Seqnum)
+//@   ensures appended-last: err == nil ==> len(ring.data.Keys) == old(len(ring.data.Keys)) + 1 && ring.data.Keys[len(ring.data.Keys)-1].Seqnum == tx.newKey.Seqnum
+//@   ensures conflict-changes-nothing: err != nil ==> err == errTxKeyExists && sameslice(ring.data.Keys, old(ring.data.Keys))
+
+//@ func (tx *txAddKey) Rollback(ring *KeyRing) (err error)
+//@   props C08
+//@   ensures undone: old(len(ring.data.Keys)) >= 1 ==> err == nil && len(ring.data.Keys) == old(len(ring.data.Keys)) - 1
+
+//@ func (tx *txSetKeyCurrent) Apply(ring *KeyRing) (err error)
+//@   props C17 C08 C06
+//@   safety
+//@   ensures stale-view-rejected: old(ring.data.Current) != tx.oldSeqnum ==> err == errTxConcurrentModification && ring.data.Current == old(ring.data.Current)
+//@   ensures applied: err == nil ==> old(ring.data.Current) == tx.oldSeqnum && ring.data.Current == tx.newSeqnum && ret(KeyRing.KeyWithSeqnum)[0] != nil
+//@   ensures failure-changes-nothing: err != nil ==> ring.data.Current == old(ring.data.Current)
+
+//@ func (tx *txSetKeyCurrent) Rollback(ring *KeyRing) (err error)
+//@   props C08
+//@   safety
+//@   ensures undone: err == nil ==> ring.data.Current == tx.oldSeqnum
+//@   ensures failure-changes-nothing: err != nil ==> ring.data.Current == old(ring.data.Current)
+
+//@ func (tx *txChangeKeyState) Apply(ring *KeyRing) (err error)
+//@   props C17 C08 C06
+//@   safety
+//@   ensures missing-key: ret(KeyRing.KeyWithSeqnum)[0] == nil ==> err == errTxKeyNotFound
+//@   ensures stale-view-rejected: ret(KeyRing.KeyWithSeqnum)[0] != nil && old(ret(KeyRing.KeyWithSeqnum)[0].State) != asn1.KeyState(tx.oldState) ==> err == errTxConcurrentModification && ret(KeyRing.KeyWithSeqnum)[0].State == old(ret(KeyRing.KeyWithSeqnum)[0].State)
+//@   ensures applied: err == nil ==> ret(KeyRing.KeyWithSeqnum)[0].State == asn1.KeyState(tx.newState) && old(ret(KeyRing.KeyWithSeqnum)[0].State) == asn1.KeyState(tx.oldState)
+//@   at call KeyRing.KeyWithSeqnum : assert recv == ring.data && arg[0] == tx.keySeqnum
